@@ -15,6 +15,7 @@ type CallSite struct {
 	V    string   `json:"v"`             // "" = V not passed, "$" = pass the caller's V through, else literal
 	For  []string `json:"for,omitempty"` // for: [..] list; the item is passed as V
 	Mat  [][]string `json:"mat,omitempty"` // for: {matrix: {A: [..], B: [..]}}; the item is the concatenation of the row values
+	VT   string     `json:"vt,omitempty"`  // how V is written in the Taskfile when it is a template whose value (V) the program fixes
 }
 
 // Cmd kinds: sh, call, dsh (defer shell), dcall (defer task call)
@@ -166,6 +167,8 @@ func callVars(p *Program, self string, st *Task, cs *CallSite, kind string, idx 
 		// a pair value "x+y" stands for two variables V=x, W=y
 		f := strings.SplitN(cs.V, "+", 2)
 		parts = append(parts, "V: "+yq(f[0]), "W: "+yq(f[1]))
+	case cs.VT != "":
+		parts = append(parts, "V: "+yq(cs.VT), "W: ''")
 	case strings.HasPrefix(cs.V, "#"):
 		parts = append(parts, "V: "+cs.V[1:], "W: ''") // an integer
 	default:
@@ -311,29 +314,39 @@ func (p *Program) render(file string) string {
 			if len(mat) > 0 {
 				return matYAML(mat)
 			}
-			simple := len(list) > 0
+			hasEmpty, special := false, len(list) == 0
 			for _, it := range list {
-				if it == "" || strings.ContainsAny(it, " ,'\t") {
-					simple = false
+				if it == "" {
+					hasEmpty = true
+				}
+				if strings.ContainsAny(it, " ,'\t") || strings.Contains(it, "->") {
+					special = true
 				}
 			}
 			k := len(loopVars) + 1
-			switch style := (len(full) + k) % 3; {
-			case simple && style == 1 && asV:
-				// the iterator is named V although a variable V is visible: inside the loop the item wins
+			as := ""
+			if asV {
+				as = ", as: V"
+			}
+			switch style := (len(full) + k) % 4; {
+			case !special && !hasEmpty && style == 1: // a variable of words
 				loopVars = append(loopVars, fmt.Sprintf("FL%d: %s", k, yq(strings.Join(list, " "))))
-				itemVar = "V"
-				return fmt.Sprintf("{var: FL%d, as: V}", k)
-			case simple && style == 1:
-				loopVars = append(loopVars, fmt.Sprintf("FL%d: %s", k, yq(strings.Join(list, " "))))
-				return fmt.Sprintf("{var: FL%d}", k)
-			case simple && style == 2 && asV:
+				if asV {
+					itemVar = "V"
+				}
+				return fmt.Sprintf("{var: FL%d%s}", k, as)
+			case !special && style == 2: // split at commas (an empty item stays an item)
 				loopVars = append(loopVars, fmt.Sprintf("FL%d: %s", k, yq(strings.Join(list, ","))))
-				itemVar = "V"
-				return fmt.Sprintf("{var: FL%d, split: ',', as: V}", k)
-			case simple && style == 2:
-				loopVars = append(loopVars, fmt.Sprintf("FL%d: %s", k, yq(strings.Join(list, ","))))
-				return fmt.Sprintf("{var: FL%d, split: ','}", k)
+				if asV {
+					itemVar = "V"
+				}
+				return fmt.Sprintf("{var: FL%d, split: ','%s}", k, as)
+			case !special && style == 3: // split at a two-character separator whose characters may occur in items
+				loopVars = append(loopVars, fmt.Sprintf("FL%d: %s", k, yq(strings.Join(list, "->"))))
+				if asV {
+					itemVar = "V"
+				}
+				return fmt.Sprintf("{var: FL%d, split: '->'%s}", k, as)
 			}
 			loopVars = append(loopVars, "")
 			return forYAML(list)
